@@ -1,7 +1,7 @@
 (* C12 - Nesting follows indentation order; layout noise is irrelevant.
    Only statements here; proofs are in Proofs/PreParse*.v. *)
 Require Import BB.Base.Str BB.Gen.TablesParser BB.Model.PreParse BB.Model.PreParseSpec.
-Require Import BB.Proofs.PreParseNF BB.Proofs.PreParseInvariance.
+Require Import BB.Proofs.PreParseNF BB.Proofs.PreParseInvariance BB.Proofs.PreParseScale.
 
 (* For every text over the alphabet: the first content line is at depth 0 and, for every two
    consecutive non-blank lines with indentation widths w, w' and depths d, d' (depth = number of
@@ -29,6 +29,30 @@ Theorem C12_outer_whitespace_irrelevant : forall size a s b,
   pre_parse size (a ++ s ++ b) = pre_parse size s.
 Proof. exact outer_whitespace_irrelevant. Qed.
 Print Assumptions C12_outer_whitespace_irrelevant.
+
+(* multiplying all indentation by a constant k >= 1 changes nothing, for every text in cleaned form
+   (lines without tab, not ending in a space, first and last character of the text not blank) and every
+   indent size: the indentation pass only compares levels, so any strictly monotone renumbering of
+   them gives the same markers (process_scale) *)
+Theorem C12_indent_scaling : forall size k ls,
+  (1 <= k)%nat -> good_lines ls ->
+  pre_parse size (join_on NL (map (scale_line k) ls)) = pre_parse size (join_on NL ls).
+Proof. exact indent_scaling. Qed.
+Print Assumptions C12_indent_scaling.
+
+Example C12_scaling_example :
+  good_lines [of_string "a"; of_string "  b"; of_string "      c"; of_string " d"]
+  /\ map (scale_line 3) [of_string "a"; of_string "  b"; of_string " d"] = [of_string "a"; of_string "      b"; of_string "   d"].
+Proof.
+  split; [|reflexivity]. split; [|split].
+  - repeat (apply Forall_cons; [split; [repeat (apply Forall_cons; [split; discriminate|]); apply Forall_nil|right]|]); try apply Forall_nil.
+    + exists [], 97%N. split; reflexivity.
+    + exists (of_string "  "), 98%N. split; reflexivity.
+    + exists (of_string "      "), 99%N. split; reflexivity.
+    + exists (of_string " "), 100%N. split; reflexivity.
+  - exists 97%N, [], [of_string "  b"; of_string "      c"; of_string " d"]. split; reflexivity.
+  - exists [of_string "a"; of_string "  b"; of_string "      c"], (of_string " "), 100%N. split; reflexivity.
+Qed.
 
 (* non-vacuity: the shape that used to break (multi-dedent landing between two levels) *)
 Example C12_between_levels :
